@@ -104,10 +104,18 @@ def correspondence(ctx, corr):
     corr["samples"] = [{"line": lines[i][:300], "impl": h[i][:300], "model": d[i][:300]} for i in range(0, len(lines), max(1, len(lines) // 4))][:4]
 
 
+QUICK_K = 1          # the streams of this module are sized for a quick tier of about a minute
+
+
+def _sc(ctx, q, t):
+    """quick: q (times the boost of check.py when an anchored file changed, never above t); thorough: exactly t"""
+    return ctx.scale(q, t) if ctx.quick() else t
+
+
 def simx_lines(ctx):
     """first opcode byte exhaustive x sampled operands x boundary states, per modelled simulator"""
     lines, info = [], {}
-    per = ctx.scale(8, 48)
+    per = _sc(ctx, 8, 48)
     for cpu in SIMX_MODELLED:
         ls, st = gen_simx.GENERATORS[cpu](ctx.rng, per)
         st["lines"] = len(ls)
@@ -169,7 +177,7 @@ def _word32(cpu, w):
 
 def sweep_lines(ctx):
     rng = ctx.rng
-    n = ctx.scale(400, 4000)
+    n = _sc(ctx, 400, 4000)
     lines = []
     for cpu in sorted(SIMULATORS):
         regs, mask = SIMULATORS[cpu]
@@ -187,7 +195,7 @@ def sweep_lines(ctx):
             lines.append("simstep %s %x %s %s" % (cpu, pc, rs, ";".join(runs)))
     # edge stratum: first opcode byte (both byte positions) exhaustive, EVERY register at an edge value (0, 1, 0x7f.., 0x80.., 0xff..,
     # stack page ends, 64 KiB ends), PC at 0 / top of memory, operands random; the constructor's default break_io for 1 in 16
-    m = ctx.scale(2, 8)
+    m = _sc(ctx, 2, 8)
     for cpu in sorted(SIMULATORS):
         regs, mask = FULLREGS[cpu]
         for i in range(256 * m):
@@ -217,7 +225,7 @@ def sweep_lines(ctx):
                     w = (f7 << 25) | (2 << 20) | (1 << 15) | (f3 << 12) | (3 << 7) | opc
                     lines.append("simstep riscv 1000 %s 1000:%s" % (rs_r, (_word32("riscv", w) + bytes(8)).hex()))
     for op in range(64):
-        for k in range(ctx.scale(2, 8)):
+        for k in range(_sc(ctx, 2, 8)):
             w = (op << 26) | rng.getrandbits(26)
             rs_m = ",".join("%s=%x" % (r, rng.choice(EDGE_VALUES)) for r in MIPS_REGS)
             lines.append("simstep mips 1000 %s 1000:%s" % (rs_m, (_word32("mips", w) + _word32("mips", rng.getrandbits(32)) * 2).hex()))
@@ -228,12 +236,12 @@ def sweep_lines(ctx):
             lines.append("simstep riscv 1000 %s 1000:%s" % (rs_r, (_word32("riscv", w) + bytes(8)).hex()))
     # a long run of branches in delay slots / of the same opcode: nesting must stay bounded (MIPS delay slots)
     for cpu, word in (("mips", 0x08000000), ("mips", 0x10000000), ("mips", 0x0c000400)):
-        lines.append("simstep %s 0 - 0:%s" % (cpu, (_word32(cpu, word) * ctx.scale(150000, 400000)).hex()))
+        lines.append("simstep %s 0 - 0:%s" % (cpu, (_word32(cpu, word) * _sc(ctx, 150000, 400000)).hex()))
     # state that only a history reaches (1802: the counter after 255 DTCs): several hundred steps, three differently filled objects
     lines.append("simstep 1802 0 d=1 0:%s - 300" % ("6801" * 300))
     for cpu in sorted(SIMULATORS):
         regs, mask = FULLREGS[cpu]
-        for k in range(ctx.scale(4, 16)):
+        for k in range(_sc(ctx, 4, 16)):
             blob = bytes(rng.getrandbits(8) for _ in range(256))
             rs = ",".join("%s=%x" % (r, rng.choice(EDGE_VALUES) & mask) for r in regs)
             lines.append("simstep %s 0 %s 0:%s - 64" % (cpu, rs, blob.hex()))
